@@ -171,7 +171,7 @@ if not rc and obligations:
                                                                                                                                      "srcRec_null", "srcRec_render", "srcRec_render_strong",
                                                                                                                                      "File_Render_closed", "File_Save_closed", "Statement_RenderWithFile_closed", "Group_RenderWithFile_closed", "Statement_GoString_closed", "Group_GoString_closed",
                                                                                                                                      "C10_render_on_code", "C10_save_on_code", "C13_insert_void_on_code", "C08_rerender_on_code", "carried_prev_is_previous",
-                                                                                                                                     "C07_tag_on_code", "C07_imports_on_code", "C07_importNames_on_code", "C17_lookup_on_code", "C15_line_comment_on_code", "C15_block_comment_on_code", "C06_local_on_code", "C04_block_exact_on_code", "C19_C_on_code", "C03_final_table_on_code", "C16_dict_on_code", "C12_string_on_code", "C12_byte_on_code"}))
+                                                                                                                                     "C07_tag_on_code", "C07_imports_on_code", "C07_importNames_on_code", "C17_lookup_on_code", "C15_line_comment_on_code", "C15_block_comment_on_code", "C06_local_on_code", "C04_block_exact_on_code", "C19_C_on_code", "C03_final_table_on_code", "C16_dict_on_code", "C12_string_on_code", "C12_byte_on_code", "C11_int_on_code", "C11_sized_on_code"}))
     ap = "%s/audit_%s.lean" % (BUILD, prop)
     open(ap, "w").write(audit)
     rca, aout = sh("lake env lean %s" % ap, cwd=LEAN, timeout=600)
